@@ -207,11 +207,12 @@ func openImage1(dir string, img []byte, prof Profile, pageSize int, n int) (obs 
 	}
 	// a follow-up write transaction, then the integrity check again
 	err = db.Update(func(tx *bolt.Tx) error {
-		b, err := tx.CreateBucketIfNotExists(prof.Key(9))
+		// (ids outside every generator's key space: the follow-up must not collide with a nested bucket of the history)
+		b, err := tx.CreateBucketIfNotExists(prof.Key(900))
 		if err != nil {
 			return err
 		}
-		for k := 20; k < 26; k++ {
+		for k := 901; k < 907; k++ {
 			if err := b.Put(prof.Key(k), prof.Val(3)); err != nil {
 				return err
 			}
